@@ -6,7 +6,7 @@ KINDS = ["uniform", "hex", "disc"]
 
 
 def base_tissue(rng, fam, ncells=None, max_phi=1.2):
-    """fam: vor | mob | arc | lat-square | lat-brick | lat-hex"""
+    """fam: vor | mob | arc | lat-square | lat-brick | lat-hex | lat-tri (six-fold junctions) | lat-fan (one 5..8-fold junction)"""
     if fam.startswith("lat-"):
         kind = fam[4:]
         nx, ny = int(rng.integers(2, 6)), int(rng.integers(2, 6))
